@@ -5,7 +5,7 @@ use serde_json::{json, Value};
 use vcore::gen::{Env, Index};
 use vcore::runner::{esc, replay_tape, tape_from_json, Failure, Harness, Stats};
 use vcore::spec::{Header, Model};
-use vrun::props::{c01_candidates, c01_check_header, c01_random_prop, c02_prop, c03_sig_prop, c06_prop, c12_unit_prop, Exec};
+use vrun::props::{c01_candidates, c01_check_header, c01_random_prop, c02_prop, c03_sig_prop, c06_prop, c11_random_prop, c12_unit_prop, Exec};
 use vrun::{Fixture, ProcOut, RunOut};
 
 pub struct Entry {
@@ -265,6 +265,33 @@ fn main() {
                     let sigs: Vec<usize> = (0..ifaces[0].model.spec.decls.len()).collect();
                     let tape = tape_from_json(&case["tape"]);
                     c03_sig_prop(&ifaces[0].model, &ex, &sigs, &tape, &mut Stats::default())
+                },
+            );
+        }
+        "C11" => {
+            let cases = h.tier.pick(90_000u64, 1_500_000);
+            let per = (cases / k as u64).max(1);
+            h.check(
+                "c11.generated",
+                &format!("the c11.random property (base message of 1-4 units incl. execution-type faults vs 3 lexical variants: per mnemonic the other declared form where the tree has one, random letter case, white space of all 32 byte values in the five slots, CR LF; identical observations through run and process::<1024>) over {} generated declaration sets ({} declarations: mnemonics declared only in short form next to the same node spelled in full, non-prefix short forms, digits, underscores, optional nodes, common commands), {} proptest tapes per set; non-trivial = variant differing in >= 2 kinds of variation or using a white-space byte other than blank/tab/CR", k, decls, per),
+                false,
+                |h, st| {
+                    for (ii, iface) in ifaces.iter().enumerate() {
+                        let ex = exec_of(&ENTRIES[ii]);
+                        let ix = Index::new(&iface.model, true);
+                        if let Some(mut f) = h.tape_search("c11.generated", per, 260, st, |tape, st| c11_random_prop(&iface.model, &ix, &ex, tape, st)) {
+                            f.case["spec"] = iface.spec_json.clone();
+                            f.message = format!("interface {} {:?}: {}", iface.model.spec.name, iface.model.spec.decls.iter().map(|d| d.cmd.clone()).collect::<Vec<_>>(), f.message);
+                            return Some(f);
+                        }
+                    }
+                    None
+                },
+                |case| {
+                    let ex = exec_of(&ENTRIES[0]);
+                    let ix = Index::new(&ifaces[0].model, true);
+                    let tape = tape_from_json(&case["tape"]);
+                    c11_random_prop(&ifaces[0].model, &ix, &ex, &tape, &mut Stats::default())
                 },
             );
         }
